@@ -1131,6 +1131,7 @@ func makeStructArshaler(t reflect.Type) *arshaler {
 		errInit *SemanticError
 	)
 	init := func() {
+		verifPoint(5)
 		fields, errInit = makeStructFields(t)
 	}
 	fncs.marshal = func(enc *jsontext.Encoder, va addressableValue, mo *jsonopts.Struct) error {
@@ -1938,6 +1939,7 @@ func makeInterfaceArshaler(t reflect.Type) *arshaler {
 				return err
 			}
 
+			verifPoint(4)
 			k := dec.PeekKind()
 			if !isAnyType(t) {
 				return newUnmarshalErrorBeforeWithSkipping(dec, t, internal.ErrNilInterface)
